@@ -27,7 +27,7 @@ func init() {
 		Title: "Setters and accessors obey last-write-wins and keep derived flags in step",
 		Level: "model_checking",
 		Rule: "explicit-state breadth-first search on the real objects: for each of the 15 packet types (+TopicFilter, UserProperties) the alphabet is every public setter/adder with a small argument domain (zero/empty/false, one or two non-zero values, both booleans, four different will messages, QoS 0..3); " +
-			"from four initial states (constructor value, zero value &T{}, a full packet, the packet decoded from the full packet's frame) all call sequences up to depth 3 (quick; 2 from the non-constructor states) / 4 (thorough; 3) are executed, one level deeper for types whose alphabet has at most 16 operations; a state is the real object reached by replaying the path on a fresh object and is identified by the deep digest of its concrete object graph (deduplication can therefore not merge states with different futures). " +
+			"from five initial states (constructor value, zero value &T{}, a full packet, the packet decoded from the full packet's frame, a value copy q2 := *q of the full packet taken after it was rendered and written once) all call sequences up to depth 3 (quick; 2 from the non-constructor states) / 4 (thorough; 3) are executed, one level deeper for types whose alphabet has at most 16 operations; a state is the real object reached by replaying the path on a fresh object and is identified by the deep digest of its concrete object graph (deduplication can therefore not merge states with different futures). " +
 			"In every state reached, every public accessor (found by reflection, so new accessors are covered), every HasFlag bit and the user-property list must equal the record-of-fields model (assignment for setters, append for adders, derived-flag rules from the property text); in every state whose packet is well formed the frame written by WriteTo, read by the specification decoder, must carry the same values. " +
 			"Contents: every string setter of every type (found by reflection) is called once, from the constructor value and from the full packet, with each of the special contents (every ASCII punctuation character, blanks at either end, short structured strings) and each token and token composition mined from the tree under test (a setter that parses its argument has its keywords in the source): the model changes the named field only. " +
 			"states = distinct concrete states, transitions = setter calls executed from expanded states, every trace runs on the implementation.",
@@ -177,7 +177,16 @@ func wills() []*mq.Publish {
 	w4.SetContentType("ct")
 	w4.SetPayloadFormat(true)
 	w4.AddUserProp("wk", "wv")
-	return []*mq.Publish{w1, w2, w3, w4}
+	// a message as it was received, reused as the will: it carries what only
+	// a PUBLISH on the wire can carry (subscription identifier, topic alias,
+	// packet identifier, DUP)
+	w5 := mq.Pub(1, "wt5", "p5")
+	w5.AddSubscriptionID(7)
+	w5.SetTopicAlias(3)
+	w5.SetPacketID(9)
+	w5.SetDuplicate(true)
+	w5.SetResponseTopic("r/t")
+	return []*mq.Publish{w1, w2, w3, w4, w5}
 }
 
 func fl(b bool) string { return fmt.Sprint(b) }
@@ -548,6 +557,28 @@ func makeInit(s subject, ops []sop, kind string) any {
 		return s.New()
 	case "zero":
 		return s.Zero()
+	case "copy":
+		// a value copy (q2 := *q) of the full packet, taken after the packet
+		// was rendered and written once (whatever it builds lazily exists
+		// then): the copy is a packet of its own - setters on it, its
+		// accessors and its frame must not reach back into the original
+		q := makeInit(s, ops, "full")
+		if q == nil {
+			return nil
+		}
+		if p, ok := q.(mq.Packet); ok {
+			if res := guarded(0, func() { _ = p.String(); p.WriteTo(io.Discard) }); res.Panic != "" {
+				return nil
+			}
+		}
+		v := reflect.ValueOf(q)
+		if v.Kind() != reflect.Ptr || v.Elem().Kind() != reflect.Struct {
+			return nil
+		}
+		cp := reflect.New(v.Elem().Type())
+		cp.Elem().Set(v.Elem())
+		keepAlive = append(keepAlive[:0], q) // the original stays reachable
+		return cp.Interface()
 	case "full", "decoded":
 		q := s.New()
 		for _, o := range ops {
@@ -575,6 +606,8 @@ func makeInit(s subject, ops []sop, kind string) any {
 	return nil
 }
 
+var keepAlive []any
+
 type e2Visit func(s subject, init string, ops []sop, path []int, q any, model KV) *core.Finding
 
 // runE2Setters is the breadth-first search shared by C12 and C19.
@@ -588,7 +621,7 @@ func runE2Setters(x *core.Ctx, visit e2Visit) {
 	}
 	for _, s := range subjects() {
 		ops := alphabet(s.Name)
-		for _, init := range []string{"new", "zero", "full", "decoded"} {
+		for _, init := range []string{"new", "zero", "full", "decoded", "copy"} {
 			if makeInit(s, ops, init) == nil {
 				continue
 			}
